@@ -1,6 +1,7 @@
 package checks
 
 import (
+	"fmt"
 	"testing"
 
 	"pgregory.net/rapid"
@@ -14,9 +15,12 @@ import (
 
 // C03 — positional predicates on child steps use the XPath proximity position.
 
-const ruleC03 = "rapid: document (2 element names, fan<=5, depth<=4: parents with different numbers of matching children) x context x path whose child-axis steps may carry a positional first predicate ([n], position() op n, position() op last(), last(), last()-n; n in 1..6) followed by 0-2 boolean predicates, anywhere incl. after '//'; plus (flat)[n] and (//name)[n] at top level, as the start of a longer path and inside predicates. Oracle: set(Select) = reference evaluator; for (flat)[n] additionally the n-th node of the flat path in document order. Non-trivial: result non-empty and the first positional step has candidates under >= 2 parents with different fan-out (for (flat)[n]: the flat path has >= 2 nodes); distinct by (document, context, expression)."
+const ruleC03 = "rapid: document (2 element names, fan<=5, depth<=4: parents with different numbers of matching children) x context x path whose child-axis steps may carry a positional first predicate ([n], position() op n, position() op last(), last(), last()-n; n in 1..6) followed by 0-2 boolean predicates, anywhere incl. after '//'; plus (flat)[n] and (//name)[n] at top level, as the start of a longer path and inside predicates. enum (exhaustive): every positional form ([n], last(), last()-n, position() op last(), position() op n, n op position(); n in 1..6) x node tests {a, b, *, node(), text()} x path shapes (child step; after '//'; after a step and followed by a boolean predicate; inside a predicate; after descendant::*; (*/t)[n]; (//t)[n]) on 6 rich documents x 3 contexts. Oracle: set(Select) = reference evaluator; for (flat)[n] additionally the n-th node of the flat path in document order. Non-trivial: result non-empty and the first positional step has candidates under >= 2 parents with different fan-out (for (flat)[n]: the flat path has >= 2 nodes); distinct by (document, context, expression)."
 
-var uC03 = harness.NewUnit("C03", "rapid-positional", ruleC03)
+var (
+	uC03     = harness.NewUnit("C03", "rapid-positional", ruleC03)
+	uC03Enum = harness.NewUnit("C03", "enum-positional-forms", ruleC03)
+)
 
 func init() {
 	harness.RegisterOracle("C03/positional", func(l *harness.Live) *harness.Failure {
@@ -181,3 +185,75 @@ func TestC03Rapid(t *testing.T) {
 		})
 	})
 }
+
+// TestC03Enum enumerates every positional predicate form x n in 1..6 x a fixed
+// set of path shapes (child step, after '//', followed by a boolean predicate, on
+// '*', 'node()' and 'text()' tests, (flat)[n], inside a predicate) on rich
+// documents x contexts: exhaustive for this finite space.
+func TestC03Enum(t *testing.T) {
+	posForms := func(n string) []xast.Expr {
+		num := &xast.Num{Lit: n}
+		pos := &xast.Call{Name: "position"}
+		last := &xast.Call{Name: "last"}
+		out := []xast.Expr{num, last, &xast.Bin{Op: "-", L: last, R: num}, &xast.Bin{Op: "=", L: pos, R: last}, &xast.Bin{Op: "!=", L: pos, R: last}, &xast.Bin{Op: "<", L: pos, R: last}}
+		for _, op := range cmpOpsC03 {
+			out = append(out, &xast.Bin{Op: op, L: pos, R: num}, &xast.Bin{Op: op, L: num, R: pos})
+		}
+		return out
+	}
+	tests := []xast.NodeTest{{Kind: "name", Local: "a"}, {Kind: "name", Local: "b"}, {Kind: "wild"}, {Kind: "node"}, {Kind: "text"}}
+	boolPred := &xast.Path{Steps: []interface{}{&xast.Step{Axis: "child", Test: xast.NodeTest{Kind: "wild"}, Abbr: true}}}
+	docs := richDocs(6, harness.EnvInt("VERIF_SEED", 1))
+	shard, shards := harness.Shard()
+	var total int64
+	idx := 0
+	for n := 1; n <= 6; n++ {
+		for _, pf := range posForms(fmt.Sprint(n)) {
+			for _, nt := range tests {
+				step := func(extra ...xast.Expr) *xast.Step {
+					return &xast.Step{Axis: "child", Test: nt, Abbr: true, Preds: append([]xast.Expr{pf}, extra...)}
+				}
+				shapes := []xast.Expr{
+					&xast.Path{Steps: []interface{}{step()}},
+					&xast.Path{Abs: true, Steps: []interface{}{xast.DSlash{}, step()}},
+					&xast.Path{Steps: []interface{}{&xast.Step{Axis: "child", Test: xast.NodeTest{Kind: "wild"}, Abbr: true}, step(boolPred)}},
+					&xast.Path{Abs: true, Steps: []interface{}{xast.DSlash{}, &xast.Step{Axis: "child", Test: xast.NodeTest{Kind: "wild"}, Abbr: true, Preds: []xast.Expr{&xast.Path{Steps: []interface{}{step()}}}}}},
+					&xast.Path{Steps: []interface{}{&xast.Step{Axis: "descendant", Test: xast.NodeTest{Kind: "wild"}}, step()}},
+				}
+				if _, ok := pf.(*xast.Num); ok {
+					shapes = append(shapes,
+						&xast.Filter{Primary: &xast.Group{X: &xast.Path{Steps: []interface{}{&xast.Step{Axis: "child", Test: xast.NodeTest{Kind: "wild"}, Abbr: true}, &xast.Step{Axis: "child", Test: nt, Abbr: true}}}}, Preds: []xast.Expr{pf}},
+						&xast.Filter{Primary: &xast.Group{X: &xast.Path{Abs: true, Steps: []interface{}{xast.DSlash{}, &xast.Step{Axis: "child", Test: nt, Abbr: true}}}}, Preds: []xast.Expr{pf}},
+					)
+				}
+				for _, e := range shapes {
+					idx++
+					if idx%shards != shard {
+						continue
+					}
+					expr := xast.Render(e)
+					for _, d := range docs {
+						for _, ctx := range spreadContexts(d, 3) {
+							l := &harness.Live{Property: "C03", Check: "C03/positional", Doc: d, Ctx: ctx, AST: e, Expr: expr}
+							info, f := oracleC03(l)
+							if f != nil {
+								if f == cappedFailure {
+									continue
+								}
+								harness.Report(t, uC03Enum, l, f)
+							}
+							total++
+							uC03Enum.Case(harness.Mix(d.Hash(), uint64(ctx.ID), harness.Hash64(expr)), len(info.want) > 0, info.labels, func() interface{} {
+								return l.Sample("result", describe(d, info.want))
+							})
+						}
+					}
+				}
+			}
+		}
+	}
+	uC03Enum.SetExhaustive(total)
+	uC03Enum.Done(total)
+}
+
+var cmpOpsC03 = []string{"=", "!=", "<", "<=", ">", ">="}
